@@ -7,6 +7,7 @@ from vlib.verus import VerusFile, Contract, Clause, sub, lit, rule, Undecided, b
 from units import _tree
 
 NAME = "c05_types"
+DROPPED = ["Correctness::threshold / Malleability::threshold: the generic iterator parameter is specialised to a slice and the `for` loop is rewritten to an index loop carrying the invariant (R8); the loop body is verbatim. Type::threshold (iterator adapters) and the Thresh arm of type_check are covered bounded by Kani (k05_thresh)"]
 ENGINE = "verus"
 PROPS = ("C05", "C11")
 HERE = os.path.dirname(os.path.abspath(__file__))
@@ -232,6 +233,7 @@ proof fn const_corr_table()
                 Clause("wf", ("C05", "C11"), "wf_ty(r)")]))
         for fn, ar, cspec, mspec in TYPE_RULES:
             vf.fn(TYPES, "impl:Type/fn:%s" % fn, qual="Type", props=PROPS, contract=type_contract(fn, ar, cspec, mspec))
+    thresholds(vf)
     return vf
 
 
@@ -256,3 +258,100 @@ def replay(rec, repo_root):
     rc, out = R.run(repo_root, ["types", rec["counterexample"]["rule"]])
     print(out[-1500:])
     return rc == 1
+
+
+# ---------------------------------------------------------------------------------------------------
+# thresholds: Correctness::threshold / Malleability::threshold, unbounded in n (rule R8: the generic
+# iterator parameter is specialised to a slice and the `for` loop becomes an index loop carrying the
+# invariant; the loop BODY is verbatim)
+# ---------------------------------------------------------------------------------------------------
+def for_to_index_loop(for_prefix, slice_name, elem, index, declare_index, invariant, decreases):
+    """R8: `for <pat> in <iter> { BODY }`  ->  `[let mut i = 0;] while i < s.len() invariant .. { let elem = &s[i]; BODY; i += 1; }`"""
+    from vlib.extract import Region
+    from vlib.verus import rule
+
+    @rule("R8")
+    def rw(text):
+        reg = Region("<text>", text, 0, len(text))
+        try:
+            b = reg._find_block(for_prefix)
+        except Exception:
+            return None
+        head = ("let mut %s: usize = 0;\n        " % index if declare_index else "") + \
+               "while %s < %s.len()\n            invariant\n%s\n            decreases %s\n        {\n            let %s = &%s[%s];" % (
+                   index, slice_name, invariant, decreases, elem, slice_name, index)
+        body = text[b.start:b.end]
+        # a `continue` of the for loop must still advance the index
+        body = re.sub(r"\bcontinue\s*;", "{ %s += 1; continue; }" % index, body)
+        return text[:b.stmt_start] + head + body + "    %s += 1;\n        }" % index + text[b.stmt_end:]
+    return rw
+
+
+THRESH_SPEC = r"""
+// ---- thresh(k, X1..Xn): X1 is Bdu; others are Wdu -> B; z = all z; o = all z except one o; d; u ----
+spec fn args_of(i: Input) -> int { if in_z(i) { 0 } else if in_o(i) { 1 } else { 2 } }
+spec fn sum_args(s: Seq<Correctness>, n: int) -> int decreases n { if n <= 0 { 0 } else { sum_args(s, n - 1) + args_of(s[n - 1].input) } }
+spec fn thresh_child_ok(j: int, c: Correctness) -> bool { (if j == 0 { c.base is B } else { c.base is W }) && c.unit && c.dissatisfiable }
+// "all are z" / "all are z except one, which is o", by recursion on the number of children
+spec fn all_z(s: Seq<Correctness>, n: int) -> bool decreases n { n <= 0 || (all_z(s, n - 1) && in_z(s[n - 1].input)) }
+spec fn one_o_rest_z(s: Seq<Correctness>, n: int) -> bool decreases n {
+    n > 0 && ((one_o_rest_z(s, n - 1) && in_z(s[n - 1].input)) || (all_z(s, n - 1) && in_o(s[n - 1].input)))
+}
+proof fn lemma_sum_args(s: Seq<Correctness>, n: int)
+    requires 0 <= n <= s.len(),
+    ensures sum_args(s, n) >= 0, sum_args(s, n) <= 2 * n, sum_args(s, n) == 0 <==> all_z(s, n), sum_args(s, n) == 1 <==> one_o_rest_z(s, n),
+    decreases n,
+{
+    if n > 0 { lemma_sum_args(s, n - 1); }
+}
+// malleability of thresh: s = at most k-1 children are not s; e = all e and all s; m = all e, all m, at most k not s
+spec fn count_signed(s: Seq<Malleability>, n: int) -> int decreases n { if n <= 0 { 0 } else { count_signed(s, n - 1) + (if s[n - 1].signed { 1int } else { 0int }) } }
+spec fn all_signed(s: Seq<Malleability>, n: int) -> bool decreases n { n <= 0 || (all_signed(s, n - 1) && s[n - 1].signed) }
+spec fn all_e(s: Seq<Malleability>, n: int) -> bool decreases n { n <= 0 || (all_e(s, n - 1) && s[n - 1].dissat is Unique) }
+spec fn all_m(s: Seq<Malleability>, n: int) -> bool decreases n { n <= 0 || (all_m(s, n - 1) && s[n - 1].non_malleable) }
+proof fn lemma_count_signed(s: Seq<Malleability>, n: int)
+    requires 0 <= n <= s.len(),
+    ensures 0 <= count_signed(s, n) <= n, count_signed(s, n) == n <==> all_signed(s, n),
+    decreases n,
+{
+    if n > 0 { lemma_count_signed(s, n - 1); }
+}
+"""
+
+
+def thresholds(vf):
+    vf.raw(THRESH_SPEC)
+    inv_c = """                %s <= subs.len(), subs.len() < 0x3fff_ffff,
+                num_args == sum_args(subs@, %s as int), 0 <= num_args <= 2 * %s,
+                forall|j: int| 0 <= j < %s ==> thresh_child_ok(j, #[trigger] subs@[j]),""" % ("i", "i", "i", "i")
+    with vf.block("impl Correctness"):
+        vf.fn(CORR, "impl:Correctness/fn:threshold", qual="Correctness", props=PROPS, rewrites=[
+            sub("R8-slice", r"threshold<'a, I>\(_k: usize, subs: I\) -> Result<Self, ErrorKind>\s*where\s*I: Iterator<Item = &'a Self>,", "threshold(_k: usize, subs: &[Self]) -> Result<Self, ErrorKind>", flags=re.S),
+            for_to_index_loop("for (i, subtype) in subs.enumerate()", "subs", "subtype", "i", True, inv_c, "subs.len() - i"),
+            lit("R10", "Ok(Self {", "proof { lemma_sum_args(subs@, subs.len() as int); }\n        Ok(Self {"),
+            lit("R10-lemma-in-loop", "num_args += match subtype.input {", "proof { lemma_sum_args(subs@, i as int); }\n            num_args += match subtype.input {"),
+        ], contract=Contract(
+            requires=["subs.len() < 0x3fff_ffff"],
+            ensures=[
+                Clause("rejects_exactly", ("C05",), "r is Ok <==> (forall|j: int| 0 <= j < subs.len() ==> thresh_child_ok(j, #[trigger] subs@[j]))"),
+                Clause("equals_table", ("C05",), "r is Ok ==> abs_corr(r->Ok_0) == (ACorr { base: ABase::B, z: all_z(subs@, subs.len() as int), o: one_o_rest_z(subs@, subs.len() as int), n: false, d: true, u: true })"),
+                Clause("wf_preserved", ("C05", "C11"), "r is Ok ==> wf_corr(abs_corr(r->Ok_0))"),
+            ]))
+    inv_m = """                i <= subs.len(), n == subs.len(),
+                signed_count == count_signed(subs@, i as int), signed_count <= i,
+                all_are_dissat_unique == all_e(subs@, i as int), all_are_non_malleable == all_m(subs@, i as int),"""
+    with vf.block("impl Malleability"):
+        vf.fn(MALL, "impl:Malleability#1/fn:threshold", qual="Malleability", props=PROPS, rewrites=[
+            sub("R8-slice", r"threshold<'a, I>\(k: usize, subs: I\) -> Self\s*where\s*I: ExactSizeIterator<Item = &'a Self>,", "threshold(k: usize, subs: &[Self]) -> Self", flags=re.S),
+            for_to_index_loop("for subtype in subs", "subs", "subtype", "i", True, inv_m, "subs.len() - i"),
+            lit("R12-usize-from-bool", "usize::from(subtype.signed)", "(if subtype.signed { 1usize } else { 0usize })"),
+            sub("R5", r"all_are_dissat_unique &= subtype\.dissat == Dissat::Unique;", "all_are_dissat_unique = all_are_dissat_unique && (subtype.dissat == Dissat::Unique);"),
+            sub("R5", r"all_are_non_malleable &= subtype\.non_malleable;", "all_are_non_malleable = all_are_non_malleable && subtype.non_malleable;"),
+            lit("R10", "signed_count += ", "proof { lemma_count_signed(subs@, i as int); }\n            signed_count += "),
+            sub("R10", r"\n(\s*)Self \{\n(\s*)dissat: if all_are_dissat_unique", r"\n\1proof { lemma_count_signed(subs@, n as int); }\n\1Self {\n\2dissat: if all_are_dissat_unique"),
+        ], contract=Contract(
+            requires=["1 <= k <= subs.len()"],
+            ensures=[
+                Clause("equals_table", ("C05",), "abs_mall(r) == (AMall { e: all_e(subs@, subs.len() as int) && all_signed(subs@, subs.len() as int), f: false, s: subs.len() - count_signed(subs@, subs.len() as int) <= k - 1, m: all_e(subs@, subs.len() as int) && all_m(subs@, subs.len() as int) && subs.len() - count_signed(subs@, subs.len() as int) <= k })"),
+                Clause("wf_preserved", ("C05", "C11"), "wf_mall(abs_mall(r))"),
+            ]))
